@@ -581,4 +581,14 @@ def daemonPass (w : W) (p : PassIn) : W × List String :=
   let w := { a.w with devs := a.devs, pendingX := [], tmo := a.tmo }
   (w, pre ++ a.ylines ++ a.msgs ++ (if !a.oracle.calls.isEmpty then [s!"O UNUSED-RX {a.oracle.calls.length}"] else []) ++ dumpLines w (some a.tmo))
 
+/-- what `main` does after `_select_loop` returns (`cli_fini`, `dev_fini`): every client's descriptor is closed; every device
+    that is CONNECTED is disconnected (`dev_destroy` tests exactly that state: a device still CONNECTING keeps its descriptor until
+    the process exits), a coprocess is sent SIGTERM and waited for -/
+def teardown (w : W) : List String :=
+  (w.clients.map fun c => s!"Y close {c.fd}") ++
+  w.devs.flatMap fun (nd : Bytes × Dev) =>
+    if nd.2.conn == 2 then
+      showSys [] (Pm.Dev2.disconnectDev { dev := nd.2, env := { now := 0, revents := 0, sockets := [], connects := [], soerrs := [], read := none, writeOk := true }, sys := [] }).sys
+    else []
+
 end Pm.Daemon
